@@ -1,1 +1,6 @@
 import CGV.Props.C13
+#print axioms CGV.C13.C13_descriptors_after_atom
+#print axioms CGV.C13.C13_descriptors_at_end
+#print axioms CGV.stripAux_descs
+#print axioms CGV.stripAux_desc
+#print axioms CGV.formatBonding_wf
